@@ -951,6 +951,12 @@ func ConcatAll[T any]() func(Observable[Observable[T]]) Observable[T] {
 					subscriberCtx,
 					NewObserverWithContext(
 						func(ctx context.Context, source Observable[T]) {
+							if subscriptions.IsClosed() {
+								// a previous source failed (or the stream was released): the
+								// remaining sources must not be subscribed at all
+								return
+							}
+
 							sub := source.SubscribeWithContext(
 								ctx,
 								NewObserverWithContext(
